@@ -226,19 +226,62 @@ func ruleEncInherit(c *eng.Ctx) {
 			headsParam = p
 		}
 	}
-	var loop *ast.RangeStmt
-	ast.Inspect(fi.Decl.Body, func(m ast.Node) bool {
-		if rs, ok := m.(*ast.RangeStmt); ok && eng.ObjOf(info, rs.X) == headsParam {
-			loop = rs
+	// the function that walks the heads: determineBlockEncryption itself or a package helper that
+	// receives the heads (a refactor may move the loop)
+	type walker struct {
+		fi    *eng.FuncInfo
+		loop  *ast.RangeStmt
+		call  *ast.CallExpr // call in determineBlockEncryption passing its own heads (nil when the loop is inline)
+		bools map[types.Object]bool
+	}
+	findLoop := func(f *eng.FuncInfo, over types.Object) *ast.RangeStmt {
+		var l *ast.RangeStmt
+		ast.Inspect(f.Decl.Body, func(m ast.Node) bool {
+			if rs, ok := m.(*ast.RangeStmt); ok && eng.ObjOf(f.Pkg.TypesInfo, rs.X) == over {
+				l = rs
+			}
+			return true
+		})
+		return l
+	}
+	var w *walker
+	if l := findLoop(fi, headsParam); l != nil {
+		w = &walker{fi: fi, loop: l, bools: map[types.Object]bool{}}
+	} else {
+		for _, cs := range eng.Calls(info, fi.Decl.Body) {
+			g := c.P.FuncOfObj(cs.Callee)
+			if g == nil || g.Pkg != fi.Pkg || g.Decl.Body == nil {
+				continue
+			}
+			gps := paramObjs(g.Pkg.TypesInfo, g.Decl)
+			for ai, a := range cs.Call.Args {
+				if eng.ObjOf(info, a) == headsParam && ai < len(gps) {
+					if l := findLoop(g, gps[ai]); l != nil {
+						w = &walker{fi: g, loop: l, call: cs.Call, bools: map[types.Object]bool{}}
+						for bi, b := range cs.Call.Args {
+							if tv, ok := info.Types[b]; ok && tv.Value != nil && bi < len(gps) {
+								if bt, ok := gps[bi].Type().Underlying().(*types.Basic); ok && bt.Kind() == types.Bool {
+									w.bools[gps[bi]] = tv.Value.ExactString() == "true"
+								}
+							}
+						}
+					}
+				}
+			}
 		}
-		return true
-	})
-	if loop == nil {
+	}
+	if w == nil {
 		c.Bad(rule, "determineBlockEncryption:heads-loop", fi.Decl.Pos(), "the previous heads are never inspected: an update of an encrypted field is written in clear")
 		return
 	}
 	flow := eng.NewFlow(info, fi.Decl.Body)
-	// every `return nil, _, nil` (not encrypted) is dominated by the loop header
+	inspected := func(nd ast.Node) bool {
+		if w.call != nil {
+			return nd.Pos() <= w.call.Pos() && w.call.End() <= nd.End()
+		}
+		return nd == ast.Node(w.loop.X)
+	}
+	// every `return nil, _, nil` (not encrypted) of determineBlockEncryption is dominated by the inspection
 	n := 0
 	ast.Inspect(fi.Decl.Body, func(m ast.Node) bool {
 		if _, ok := m.(*ast.FuncLit); ok {
@@ -255,18 +298,58 @@ func ruleEncInherit(c *eng.Ctx) {
 		}
 		n++
 		pt, _ := flow.PointOf(r)
-		un := flow.ReachesWithout(pt, func(nd ast.Node) bool { return nd == ast.Node(loop.X) }, nil)
-		inLoop := loop.Body.Pos() <= r.Pos() && r.End() <= loop.Body.End()
+		un := flow.ReachesWithout(pt, inspected, nil)
+		inLoop := w.call == nil && w.loop.Body.Pos() <= r.Pos() && r.End() <= w.loop.Body.End()
 		c.Check(!un && !inLoop, rule, fmt.Sprintf("determineBlockEncryption:not-encrypted-return#%d", n), r.Pos(), "'not encrypted' is concluded only after every previous head was inspected",
-			"the function can conclude 'not encrypted' without (or before finishing) the loop over the previous heads: a later update of an encrypted field is stored in clear")
+			"the function can conclude 'not encrypted' without (or before finishing) the inspection of the previous heads: a later update of an encrypted field is stored in clear")
 		return true
 	})
 	c.Floor(rule, n, 1)
-	// inside the loop: Encryption != nil ⇒ return an Encryption whose Key comes from the previous enc block
+	// inside the loop: an encrypted previous head yields its key or an error
+	winfo := w.fi.Pkg.TypesInfo
+	ast.Inspect(w.loop.Body, func(m ast.Node) bool {
+		is, ok := m.(*ast.IfStmt)
+		if !ok {
+			return true
+		}
+		be, ok := ast.Unparen(is.Cond).(*ast.BinaryExpr)
+		if !ok || be.Op != token.NEQ || !isFieldNamed(winfo, be.X, "Encryption") {
+			return true
+		}
+		bflow := eng.NewFlow(winfo, is.Body)
+		outs, _ := bflow.Paths(eng.PathSpec{Cond: func(br eng.Branch) eng.Tri {
+			return eng.BranchTri(winfo, br, func(e ast.Expr) eng.Tri {
+				if o := eng.ObjOf(winfo, e); o != nil {
+					if v, ok := w.bools[o]; ok {
+						return eng.TriOf(v)
+					}
+				}
+				return eng.Unknown
+			})
+		}})
+		bad := ""
+		for _, o := range outs {
+			switch o.Kind {
+			case "return":
+				if o.Ret != nil && len(o.Ret.Results) == 3 {
+					t0, ok0 := winfo.Types[o.Ret.Results[0]]
+					t2, ok2 := winfo.Types[o.Ret.Results[2]]
+					if ok0 && t0.IsNil() && ok2 && t2.IsNil() {
+						bad = "returns (nil, _, nil) at " + c.P.Rel(o.Ret.Pos())
+					}
+				}
+			default:
+				bad = "leaves the branch without returning (continue / fall through)"
+			}
+		}
+		c.Check(bad == "" && len(outs) > 0, rule, "determineBlockEncryption:encrypted-head⇒key-or-error", is.Pos(), "an encrypted previous head yields its key or an error",
+			"on the branch where a previous head carries an encryption link the function "+bad+": the update is then treated as unencrypted and stored in clear")
+		return true
+	})
 	keyOK := false
-	ast.Inspect(loop.Body, func(m ast.Node) bool {
+	ast.Inspect(w.loop.Body, func(m ast.Node) bool {
 		cl, ok := m.(*ast.CompositeLit)
-		if !ok || eng.TypeName(info.TypeOf(cl)) != "internal/core/block.Encryption" {
+		if !ok || eng.TypeName(winfo.TypeOf(cl)) != "internal/core/block.Encryption" {
 			return true
 		}
 		for _, e := range cl.Elts {
@@ -280,39 +363,24 @@ func ruleEncInherit(c *eng.Ctx) {
 		}
 		return true
 	})
-	// once a previous head is known to be encrypted the function must return its key or an error:
-	// it may not go on (continue / fall out of the loop) and conclude "not encrypted"
-	ast.Inspect(loop.Body, func(m ast.Node) bool {
-		is, ok := m.(*ast.IfStmt)
-		if !ok {
-			return true
-		}
-		be, ok := ast.Unparen(is.Cond).(*ast.BinaryExpr)
-		if !ok || be.Op != token.NEQ || !isFieldNamed(info, be.X, "Encryption") {
-			return true
-		}
-		bflow := eng.NewFlow(info, is.Body)
-		outs, _ := bflow.Paths(eng.PathSpec{})
-		bad := ""
-		for _, o := range outs {
-			switch o.Kind {
-			case "return":
-				if o.Ret != nil && len(o.Ret.Results) == 3 {
-					t0, ok0 := info.Types[o.Ret.Results[0]]
-					t2, ok2 := info.Types[o.Ret.Results[2]]
-					if ok0 && t0.IsNil() && ok2 && t2.IsNil() {
-						bad = "returns (nil, _, nil) at " + c.P.Rel(o.Ret.Pos())
+	c.Check(keyOK, rule, "determineBlockEncryption:inherits-key", w.loop.Pos(), "the previous head's key is reused", "the inherited encryption block does not take its Key from the previous head's encryption block")
+	// a field without a head of its own consults the document's composite heads
+	docHeads := false
+	ast.Inspect(fi.Decl.Body, func(m ast.Node) bool {
+		cl, ok := m.(*ast.CompositeLit)
+		if ok && eng.TypeName(info.TypeOf(cl)) == "internal/keys.HeadstoreDocKey" {
+			for _, e := range cl.Elts {
+				if kv, ok := e.(*ast.KeyValueExpr); ok {
+					if o := selObj(info, kv.Value); o != nil && o.Name() == "COMPOSITE_NAMESPACE" {
+						docHeads = true
 					}
 				}
-			default:
-				bad = "leaves the branch without returning (continue / fall through)"
 			}
 		}
-		c.Check(bad == "" && len(outs) > 0, rule, "determineBlockEncryption:encrypted-head⇒key-or-error", is.Pos(), "an encrypted previous head yields its key or an error",
-			"on the branch where a previous head carries an encryption link the function "+bad+": the update is then treated as unencrypted and stored in clear")
 		return true
 	})
-	c.Check(keyOK, rule, "determineBlockEncryption:inherits-key", loop.Pos(), "the previous head's key is reused", "the inherited encryption block does not take its Key from the previous head's encryption block")
+	c.Check(docHeads, rule, "determineBlockEncryption:new-field-consults-document-heads", fi.Decl.Pos(), "a field first written by an update inherits a document-level encryption from the document's heads",
+		"determineBlockEncryption only looks at the field's own previous heads: a field first set by an update of a document encrypted as a whole has none, so its value is written to the shared block store in clear")
 }
 
 func ruleEncSibling(c *eng.Ctx) {
